@@ -333,7 +333,8 @@ def check_units(ctx, rng, case, index):
                 if not mine:
                     continue
                 r = math.fsum(offsets[s_] + c_ - mean[k_] for k_, c_ in mine)
-                sc = math.fsum(abs(offsets[s_] + c_) + abs(mean[k_]) for k_, c_ in mine)
+                # magnitudes of what is added up (next to the origin offset + crossing cancels)
+                sc = math.fsum(abs(offsets[s_]) + abs(c_) + abs(mean[k_]) for k_, c_ in mine)
                 if abs(r) > 1e-9 * sc:
                     rec.violation('units:{}-residuals-of-an-interval-do-not-sum-to-zero-in-the-unit-of-the-record'.format(kind),
                                   {'variant': name, 'interval': s_, 'residual_sum': r, 'sum_of_magnitudes': sc, 'relative': abs(r) / sc if sc else None},
